@@ -40,7 +40,7 @@ def register(lib):
         return v, ('char' in name.split('::<impl ')[-1][:6])
 
     # ---- ASCII classifiers on u8 and char
-    @reg(r'^core::(num|char::methods)::<impl (u8|char)>::(is_ascii_\w+|is_ascii)$', 'u8/char::is_ascii_*')
+    @reg(r'^(core::)?(num|char::methods)::<impl (u8|char)>::(is_ascii_\w+|is_ascii)$', 'u8/char::is_ascii_*')
     def _is_ascii(fr, name, args, ops):
         m = re.search(r'<impl (u8|char)>::(\w+)$', name)
         ty, fn = m.group(1), m.group(2)
@@ -57,7 +57,7 @@ def register(lib):
             return T.land(T.ult(v.w, v, 256), lo)
         return T.lut(tbl, v, 1)
 
-    @reg(r'^core::(num|char::methods)::<impl (u8|char)>::to_ascii_(upper|lower)case$', 'u8/char::to_ascii_*case')
+    @reg(r'^(core::)?(num|char::methods)::<impl (u8|char)>::to_ascii_(upper|lower)case$', 'u8/char::to_ascii_*case')
     def _to_ascii_case(fr, name, args, ops):
         up = name.endswith('uppercase')
         v = args[0]
@@ -74,7 +74,7 @@ def register(lib):
     def _char_from_u8(fr, name, args, ops):
         return T.zext(8, 32, args[0])
 
-    @reg(r'^core::char::methods::<impl char>::from_digit$|^char::from_digit$|^std::char::from_digit$|^core::char::from_digit$', 'char::from_digit')
+    @reg(r'^(core::)?char::methods::<impl char>::from_digit$|^char::from_digit$|^std::char::from_digit$|^core::char::from_digit$', 'char::from_digit')
     def _from_digit(fr, name, args, ops):
         d, radix = args
         radix = lib.concrete(radix, 'radix')
@@ -212,7 +212,7 @@ def register(lib):
             raise Unsupported('closure of filter diverges under a symbolic Option')
         return I.mk([T.zext(1, 64, T.land(T.eq(64, d, 1), keep)), lib.payload(o, 1)], 'enum')
 
-    @reg(r'^Option::<.*>::copied$|^Option::<.*>::cloned$', 'Option::copied')
+    @reg(r'^Option::<.*>::(copied|cloned)(::<.*>)?$', 'Option::copied')
     def _copied(fr, name, args, ops):
         o = args[0]
         d = o[0]
@@ -237,7 +237,7 @@ def register(lib):
     def _take_n(fr, name, args, ops):
         return I.mk([args[0], lib.concrete(args[1], 'take count')], 'Take')
 
-    @reg(r'^<.* as Iterator>::copied$|^<.* as Iterator>::cloned$', 'Iterator::copied')
+    @reg(r'^<.* as Iterator>::(copied|cloned)(::<.*>)?$', 'Iterator::copied')
     def _it_copied(fr, name, args, ops):
         return I.mk([args[0]], 'Copied')
 
@@ -436,7 +436,7 @@ def register(lib):
             return T.eq(64, args[0].length, 0)
         return 1 if lib.as_slice(args[0]).len == 0 else 0
 
-    @reg(r'^core::slice::<impl \[.*\]>::get$', 'slice::get (index)')
+    @reg(r'^core::slice::<impl \[.*\]>::get(::<usize>)?$', 'slice::get (index)')
     def _get(fr, name, args, ops):
         sl = lib.as_slice(args[0])
         i = args[1]
@@ -832,3 +832,190 @@ def register_cmp(lib):
     def _sl_ends(fr, name, args, ops):
         a, b = lib.as_slice(args[0]).items(), lib.as_slice(args[1]).items()
         return seq_eq(a[len(a) - len(b):], b) if len(b) <= len(a) else 0
+
+
+def register_misc(lib):
+    """mem::{swap, replace, take}, Default, TryFrom between unsigned integers, min/max_by_key, generic Clone of std values"""
+    I = lib.I
+    reg = lib.reg
+
+    def default_of(tyname):
+        t = tyname.strip()
+        if re.match(r'^(u8|u16|u32|u64|usize|i8|i16|i32|i64|isize|bool|char)$', t):
+            return 0
+        if t.startswith('Vec<') or t.startswith('std::vec::Vec<'):
+            return I.mk([I.mk([], 'buf'), 0], 'Vec')
+        if t in ('String', 'std::string::String'):
+            return lib.new_string([])
+        if t.startswith('Option<') or t.startswith('std::option::Option<'):
+            return lib.none()
+        raise Unsupported('Default::default() of %s' % t)
+
+    @reg(r'^(std|core)::mem::swap::<', 'mem::swap')
+    def _swap(fr, name, args, ops):
+        a, b = args
+        x, y = a.c[a.k], b.c[b.k]
+        I.write(a.c, a.k, y)
+        I.write(b.c, b.k, x)
+        return UNIT
+
+    @reg(r'^(std|core)::mem::replace::<', 'mem::replace')
+    def _replace(fr, name, args, ops):
+        a = args[0]
+        old = a.c[a.k]
+        I.write(a.c, a.k, args[1])
+        return old
+
+    @reg(r'^(std|core)::mem::take::<(.*)>$', 'mem::take')
+    def _take(fr, name, args, ops):
+        a = args[0]
+        old = a.c[a.k]
+        I.write(a.c, a.k, default_of(re.match(r'^(?:std|core)::mem::take::<(.*)>$', name).group(1)))
+        return old
+
+    @reg(r'^<(.*) as Default>::default$', 'Default::default (std types)')
+    def _default(fr, name, args, ops):
+        return default_of(re.match(r'^<(.*) as Default>::default$', name).group(1))
+
+    @reg(r'^<(u8|u16|u32|u64|usize) as TryFrom<(u8|u16|u32|u64|usize)>>::try_from$', 'TryFrom between unsigned integers')
+    def _try_from(fr, name, args, ops):
+        m = re.match(r'^<(\w+) as TryFrom<(\w+)>>', name)
+        to, frm = parse_type(m.group(1)).bits, parse_type(m.group(2)).bits
+        v = args[0]
+        if to >= frm:
+            return lib.ok(T.zext(frm, to, v) if type(v) is Term else v)
+        if type(v) is int:
+            return lib.ok(v) if v < (1 << to) else lib.err(I.mk(['TryFromIntError'], 'opaque'))
+        fits = T.ult(frm, v, 1 << to)
+        if type(fits) is int:
+            return lib.ok(T.trunc(frm, to, v)) if fits else lib.err(I.mk(['TryFromIntError'], 'opaque'))
+        return I.mk([T.zext(1, 64, T.lnot(fits)), {0: I.mk([T.trunc(frm, to, v)]), 1: I.mk([I.mk(['TryFromIntError'], 'opaque')])}], 'symenum')
+
+    @reg(r'^<(.*) as TryInto<(.*)>>::try_into$', 'TryInto (via TryFrom)')
+    def _try_into(fr, name, args, ops):
+        m = re.match(r'^<(.*) as TryInto<(.*)>>::try_into$', name)
+        return I.call(fr, '<%s as TryFrom<%s>>::try_from' % (m.group(2), m.group(1)), args, ops)
+
+    @reg(r'^<.* as Iterator>::(min|max)_by_key::<', 'Iterator::min_by_key / max_by_key (unsigned keys)')
+    def _by_key(fr, name, args, ops):
+        want_min = '::min_by_key' in name
+        it, f = args
+        best = None
+        while True:
+            ok, v = lib.it_next(it)
+            if not ok:
+                break
+            cell = I.mk([v])
+            k = I.call_closure(fr, f, [Ptr(cell, 0)])
+            if k is DEAD:
+                raise Unsupported('key closure diverges')
+            if type(k) not in (int, Term):
+                raise Unsupported('min/max_by_key with a non-integer key')
+            if best is None:
+                best = (k, v)
+                continue
+            bk, bv = best
+            w = max([x.w for x in (k, bk) if type(x) is Term] + [8])
+            # min_by_key keeps the first of equal minima, max_by_key the last of equal maxima
+            take = T.ult(w, k, bk) if want_min else T.lnot(T.ult(w, k, bk))
+            if type(take) is int:
+                if take:
+                    best = (k, v)
+                continue
+            vty = None
+            if type(v) is int and type(bv) in (int, Term) and it.tag in ('Range', 'RangeIncl'):
+                vty = parse_type('usize')          # positions produced by a range
+            best = (T.ite(w, take, k, bk), I.merge(take, v, bv, vty))
+        return lib.none() if best is None else lib.some(best[1])
+
+
+class _Panic(Exception):
+    pass
+
+
+def register_result(lib):
+    I = lib.I
+    reg = lib.reg
+    from .mirsym import Obligation
+
+    @reg(r'^<&?(u8|u16|u32|u64|usize) as (Add|Sub|Mul|Div|Rem|BitAnd|BitOr|BitXor)<&?(u8|u16|u32|u64|usize)>>::(add|sub|mul|div|rem|bitand|bitor|bitxor)$',
+         'integer operators on references')
+    def _ref_ops(fr, name, args, ops):
+        m = re.match(r'^<&?(\w+) as (\w+)<', name)
+        w = parse_type(m.group(1)).bits
+        op = m.group(2)
+        a, b = [x.c[x.k] if type(x) is Ptr else x for x in args]
+        conc = type(a) is int and type(b) is int
+
+        def oblige(c, msg):
+            if type(c) is int:
+                if not c:
+                    raise_panic(msg)
+                return
+            I.obligations.append(Obligation(tuple(I.pc), c, 'assert', 'operator on references', msg))
+
+        def raise_panic(msg):
+            raise _Panic(msg)
+        try:
+            if op == 'Add':
+                r = T.add(w, a, b)
+                oblige((1 if a + b < (1 << w) else 0) if conc else T.lnot(T.ult(w, r, a)), 'attempt to add with overflow')
+            elif op == 'Sub':
+                r = T.sub(w, a, b)
+                oblige((1 if a >= b else 0) if conc else T.lnot(T.ult(w, a, b)), 'attempt to subtract with overflow')
+            elif op == 'Mul':
+                r = T.mul(w, a, b)
+                wide = T.mul(2 * w, T.zext(w, 2 * w, a) if type(a) is Term else a, T.zext(w, 2 * w, b) if type(b) is Term else b)
+                oblige((1 if a * b < (1 << w) else 0) if conc else T.ult(2 * w, wide, 1 << w), 'attempt to multiply with overflow')
+            elif op in ('Div', 'Rem'):
+                oblige((1 if b != 0 else 0) if type(b) is int else T.ne(w, b, 0), 'attempt to divide by zero')
+                r = (T.udiv if op == 'Div' else T.urem)(w, a, b)
+            else:
+                r = {'BitAnd': T.band, 'BitOr': T.bor, 'BitXor': T.bxor}[op](w, a, b)
+        except _Panic as e:
+            return I.panic(fr, str(e))
+        return r
+
+    @reg(r'^Result::<.*>::is_ok$', 'Result::is_ok')
+    def _is_ok(fr, name, args, ops):
+        return T.eq(64, lib.deref(args[0])[0], 0)
+
+    @reg(r'^Result::<.*>::is_err$', 'Result::is_err')
+    def _is_err(fr, name, args, ops):
+        return T.eq(64, lib.deref(args[0])[0], 1)
+
+    @reg(r'^Result::<.*>::unwrap_or_default$', 'Result::unwrap_or_default (integers)')
+    def _uod(fr, name, args, ops):
+        o = args[0]
+        if type(o[0]) is int:
+            return o[1] if o[0] == 0 else 0
+        return I.merge(T.eq(64, o[0], 0), lib.payload(o, 0), 0, None)
+
+    @reg(r'^core::str::<impl str>::bytes$', 'str::bytes')
+    def _bytes(fr, name, args, ops):
+        items = lib.str_items(args[0])
+        if not all((type(x) is int and x < 0x80) or lib.is_byte_item(x) for x in items):
+            raise Unsupported('bytes() of a string with concrete non-ASCII or conditional pieces')
+        return I.mk([I.mk([T.trunc(x.w, 8, x) if type(x) is Term and x.w > 8 else x for x in items]), 0], 'ArrIter')
+
+    @reg(r'^core::str::<impl str>::is_char_boundary$', 'str::is_char_boundary')
+    def _icb(fr, name, args, ops):
+        items = lib.str_items(args[0])
+        k = lib.concrete(args[1], 'byte offset')
+        if all(type(x) is int for x in items):
+            enc = ''.join(chr(x) for x in items).encode('utf-8')          # concrete text: items are code points
+            return 1 if (k == 0 or k == len(enc) or (k < len(enc) and (enc[k] & 0xC0) != 0x80)) else 0
+        if any(type(x) is int and x >= 0x80 for x in items) or any(type(x) not in (int, Term) for x in items):
+            raise Unsupported('is_char_boundary on a string mixing concrete non-ASCII and symbolic pieces')
+        return lib.char_boundary(items, k)
+
+
+def register_last(lib):
+    """lowest priority fallbacks"""
+    I = lib.I
+    reg = lib.reg
+
+    @reg(r'^<(u8|u16|u32|u64|usize|bool|char|\(.*\)|\[.*\]|&.*) as Clone>::clone$', 'Clone::clone of a std value (copy)')
+    def _clone_any(fr, name, args, ops):
+        v = lib.deref(args[0])
+        return I.copy_val(v) if type(v) is L else v
